@@ -205,3 +205,226 @@ Proof.
   intros H1 H2. unfold remap_path. rewrite H1.
   destruct (String.eqb_spec (scheme_of p) "file"); [congruence|reflexivity].
 Qed.
+
+(* ---------- CWL values: the recursion restores the value when every file string round-trips ---------- *)
+Definition is_pathkey (k : string) : bool := String.eqb k "location" || String.eqb k "path".
+Definition is_listkey (k : string) : bool := String.eqb k "secondaryFiles" || String.eqb k "listing".
+
+(* the location/path strings of the File/Directory objects that remap_token_value reaches *)
+Fixpoint fs_v (v : jv) : list string :=
+  match v with
+  | JList l => fs_vs l
+  | JObj o => if is_file_class o then fs_file o else fs_rec o
+  | _ => []
+  end
+with fs_vs (l : jvs) : list string :=
+  match l with VNil => [] | VCons v r => fs_v v ++ fs_vs r end
+with fs_rec (o : jfields) : list string :=
+  match o with FNil => [] | FCons _ v r => fs_v v ++ fs_rec r end
+with fs_file (o : jfields) : list string :=
+  match o with
+  | FNil => []
+  | FCons k v r =>
+      (if is_pathkey k then match v with JStr s => [s] | _ => [] end
+       else if is_listkey k then match v with JList l => fs_vs l | _ => [] end
+       else []) ++ fs_file r
+  end.
+
+Scheme jv_mut := Induction for jv Sort Prop
+  with jvs_mut := Induction for jvs Sort Prop
+  with jfields_mut := Induction for jfields Sort Prop.
+Combined Scheme jv_mutind from jv_mut, jvs_mut, jfields_mut.
+
+(* unfolding equations of the mutual fixpoints *)
+Lemma remap_v_atom rp a : remap_v rp (JAtom a) = Some (JAtom a). Proof. reflexivity. Qed.
+Lemma remap_v_str_eq rp a : remap_v rp (JStr a) = Some (JStr a). Proof. reflexivity. Qed.
+Lemma remap_v_list rp l : remap_v rp (JList l) = option_map JList (remap_vs rp l). Proof. reflexivity. Qed.
+Lemma remap_v_obj rp o :
+  remap_v rp (JObj o) = option_map JObj (if is_file_class o then remap_file rp o else remap_rec rp o).
+Proof. reflexivity. Qed.
+Lemma remap_vs_nil rp : remap_vs rp VNil = Some VNil. Proof. reflexivity. Qed.
+Lemma remap_vs_cons rp v r :
+  remap_vs rp (VCons v r) = match remap_v rp v, remap_vs rp r with
+                            | Some v', Some r' => Some (VCons v' r') | _, _ => None end.
+Proof. reflexivity. Qed.
+Lemma remap_rec_nil rp : remap_rec rp FNil = Some FNil. Proof. reflexivity. Qed.
+Lemma remap_rec_cons rp k v r :
+  remap_rec rp (FCons k v r) = match remap_v rp v, remap_rec rp r with
+                               | Some v', Some r' => Some (FCons k v' r') | _, _ => None end.
+Proof. reflexivity. Qed.
+Lemma remap_file_nil rp : remap_file rp FNil = Some FNil. Proof. reflexivity. Qed.
+Lemma remap_file_cons rp k v r :
+  remap_file rp (FCons k v r) =
+    match (if is_pathkey k then match v with JStr s => option_map JStr (rp s) | _ => None end
+           else if is_listkey k then match v with JList l => option_map JList (remap_vs rp l) | _ => None end
+           else Some v), remap_file rp r with
+    | Some v'', Some r' => Some (FCons k v'' r') | _, _ => None end.
+Proof. reflexivity. Qed.
+
+Section ValueRoundTrip.
+  Variables rp1 rp2 : string -> option string.
+
+  Definition back_ok (l : list string) : Prop :=
+    forall s, In s l -> forall s', rp1 s = Some s' -> rp2 s' = Some s.
+
+  Lemma back_ok_app a b : back_ok (a ++ b) -> back_ok a /\ back_ok b.
+  Proof.
+    intros H. split; intros s Hs; apply H; apply in_or_app; [left|right]; exact Hs.
+  Qed.
+
+  (* remapping keeps a value's shape at the top: a string stays that string *)
+  Lemma remap_v_str rp v v' c : remap_v rp v = Some v' -> (v = JStr c <-> v' = JStr c).
+  Proof.
+    destruct v as [a|s|l|o]; intros H.
+    - rewrite remap_v_atom in H. injection H as H. subst. split; congruence.
+    - rewrite remap_v_str_eq in H. injection H as H. subst. split; congruence.
+    - rewrite remap_v_list in H. destruct (remap_vs rp l); simpl in H; [|discriminate H].
+      injection H as H. subst. split; intros X; discriminate X.
+    - rewrite remap_v_obj in H.
+      destruct (if is_file_class o then remap_file rp o else remap_rec rp o); simpl in H; [|discriminate H].
+      injection H as H. subst. split; intros X; discriminate X.
+  Qed.
+
+  Definition same_top (a b : option jv) : Prop :=
+    match a, b with
+    | None, None => True
+    | Some v, Some v' => forall c, v = JStr c <-> v' = JStr c
+    | _, _ => False
+    end.
+
+  Lemma get_field_rec rp k : forall o o', remap_rec rp o = Some o' -> same_top (get_field k o) (get_field k o').
+  Proof.
+    induction o as [|k0 v r IH]; intros o' H.
+    - rewrite remap_rec_nil in H. injection H as H. subst. exact I.
+    - rewrite remap_rec_cons in H.
+      destruct (remap_v rp v) as [v1|] eqn:E1; [|discriminate H].
+      destruct (remap_rec rp r) as [r1|] eqn:E2; [|discriminate H].
+      injection H as H. subst o'. simpl. destruct (String.eqb k k0).
+      + intros c. apply (remap_v_str rp v v1 c E1).
+      + apply IH. reflexivity.
+  Qed.
+
+  Lemma get_field_file rp k : is_pathkey k = false -> is_listkey k = false ->
+    forall o o', remap_file rp o = Some o' -> get_field k o' = get_field k o.
+  Proof.
+    intros Hp Hl. induction o as [|k0 v r IH]; intros o' H.
+    - rewrite remap_file_nil in H. injection H as H. subst. reflexivity.
+    - rewrite remap_file_cons in H.
+      destruct (remap_file rp r) as [r1|] eqn:E2.
+      2:{ destruct (if is_pathkey k0 then _ else _); discriminate H. }
+      destruct (String.eqb_spec k k0) as [E|Hne].
+      + subst k0. rewrite Hp, Hl in H. injection H as H. subst o'. simpl. rewrite String.eqb_refl. reflexivity.
+      + destruct (if is_pathkey k0 then _ else _) as [v1|]; [|discriminate H].
+        injection H as H. subst o'. simpl.
+        destruct (String.eqb_spec k k0); [congruence|]. apply IH. reflexivity.
+  Qed.
+
+  Lemma class_same_top a a' b b' : same_top a a' -> same_top b b' ->
+    match (match a with Some c => Some c | None => b end) with
+    | Some (JStr c) => String.eqb c "File" || String.eqb c "Directory" | _ => false end =
+    match (match a' with Some c => Some c | None => b' end) with
+    | Some (JStr c) => String.eqb c "File" || String.eqb c "Directory" | _ => false end.
+  Proof.
+    assert (K : forall x x', same_top (Some x) (Some x') ->
+      match x with JStr c => String.eqb c "File" || String.eqb c "Directory" | _ => false end =
+      match x' with JStr c => String.eqb c "File" || String.eqb c "Directory" | _ => false end).
+    { intros x x' S. simpl in S. destruct x as [t|c|l|o].
+      - destruct x' as [t'|c'|l'|o']; try reflexivity. discriminate (proj2 (S c') eq_refl).
+      - rewrite (proj1 (S c) eq_refl). reflexivity.
+      - destruct x' as [t'|c'|l'|o']; try reflexivity. discriminate (proj2 (S c') eq_refl).
+      - destruct x' as [t'|c'|l'|o']; try reflexivity. discriminate (proj2 (S c') eq_refl). }
+    intros Sa Sb. destruct a as [x|], a' as [x'|]; simpl in Sa; try contradiction.
+    - apply K. exact Sa.
+    - destruct b as [y|], b' as [y'|]; simpl in Sb; try contradiction; [apply K; exact Sb|reflexivity].
+  Qed.
+
+  Lemma class_rec rp o o' : remap_rec rp o = Some o' -> is_file_class o' = is_file_class o.
+  Proof.
+    intros H. unfold is_file_class. symmetry.
+    apply class_same_top; apply (get_field_rec rp _ o o' H).
+  Qed.
+
+  Lemma class_file rp o o' : remap_file rp o = Some o' -> is_file_class o' = is_file_class o.
+  Proof.
+    intros H. unfold is_file_class.
+    rewrite (get_field_file rp "class" eq_refl eq_refl o o' H).
+    rewrite (get_field_file rp "type" eq_refl eq_refl o o' H). reflexivity.
+  Qed.
+
+  Theorem value_roundtrip :
+    (forall v v', remap_v rp1 v = Some v' -> back_ok (fs_v v) -> remap_v rp2 v' = Some v) /\
+    (forall l l', remap_vs rp1 l = Some l' -> back_ok (fs_vs l) -> remap_vs rp2 l' = Some l) /\
+    (forall o, (forall o', remap_rec rp1 o = Some o' -> back_ok (fs_rec o) -> remap_rec rp2 o' = Some o) /\
+               (forall o', remap_file rp1 o = Some o' -> back_ok (fs_file o) -> remap_file rp2 o' = Some o)).
+  Proof.
+    apply jv_mutind.
+    - intros a v' H _. rewrite remap_v_atom in H. injection H as H. subst. reflexivity.
+    - intros s v' H _. rewrite remap_v_str_eq in H. injection H as H. subst. reflexivity.
+    - intros l IH v' H B. rewrite remap_v_list in H.
+      destruct (remap_vs rp1 l) as [l1|] eqn:E; [|discriminate H].
+      injection H as H. subst v'. rewrite remap_v_list. rewrite (IH l1 eq_refl B). reflexivity.
+    - intros o [IHr IHf] v' H B. rewrite remap_v_obj in H.
+      assert (B' : back_ok (if is_file_class o then fs_file o else fs_rec o)) by exact B.
+      destruct (is_file_class o) eqn:C.
+      + destruct (remap_file rp1 o) as [o1|] eqn:E; [|discriminate H].
+        injection H as H. subst v'. rewrite remap_v_obj. rewrite (class_file rp1 o o1 E), C.
+        rewrite (IHf o1 eq_refl B'). reflexivity.
+      + destruct (remap_rec rp1 o) as [o1|] eqn:E; [|discriminate H].
+        injection H as H. subst v'. rewrite remap_v_obj. rewrite (class_rec rp1 o o1 E), C.
+        rewrite (IHr o1 eq_refl B'). reflexivity.
+    - intros l' H _. rewrite remap_vs_nil in H. injection H as H. subst. reflexivity.
+    - intros v IHv r IHr l' H B. rewrite remap_vs_cons in H.
+      assert (B' : back_ok (fs_v v ++ fs_vs r)) by exact B.
+      destruct (remap_v rp1 v) as [v1|] eqn:E1; [|discriminate H].
+      destruct (remap_vs rp1 r) as [r1|] eqn:E2; [|discriminate H].
+      injection H as H. subst l'. apply back_ok_app in B'. destruct B' as [B1 B2].
+      rewrite remap_vs_cons. rewrite (IHv v1 eq_refl B1), (IHr r1 eq_refl B2). reflexivity.
+    - split; intros o' H _.
+      + rewrite remap_rec_nil in H. injection H as H. subst. reflexivity.
+      + rewrite remap_file_nil in H. injection H as H. subst. reflexivity.
+    - intros k v IHv r [IHr IHf]. split.
+      + intros o' H B. rewrite remap_rec_cons in H.
+        assert (B' : back_ok (fs_v v ++ fs_rec r)) by exact B.
+        destruct (remap_v rp1 v) as [v1|] eqn:E1; [|discriminate H].
+        destruct (remap_rec rp1 r) as [r1|] eqn:E2; [|discriminate H].
+        injection H as H. subst o'. apply back_ok_app in B'. destruct B' as [B1 B2].
+        rewrite remap_rec_cons. rewrite (IHv v1 eq_refl B1), (IHr r1 eq_refl B2). reflexivity.
+      + intros o' H B. rewrite remap_file_cons in H.
+        assert (B' : back_ok ((if is_pathkey k then match v with JStr s => [s] | _ => [] end
+                               else if is_listkey k then match v with JList l => fs_vs l | _ => [] end
+                               else []) ++ fs_file r)) by exact B.
+        apply back_ok_app in B'. destruct B' as [B1 B2].
+        destruct (remap_file rp1 r) as [r1|] eqn:E2.
+        2:{ destruct (if is_pathkey k then _ else _); discriminate H. }
+        destruct (is_pathkey k) eqn:Kp.
+        * destruct v as [a|s|l|o]; try discriminate H.
+          destruct (rp1 s) as [s1|] eqn:Es; [|discriminate H].
+          simpl in H. injection H as H. subst o'.
+          rewrite remap_file_cons. rewrite Kp.
+          rewrite (B1 s (or_introl eq_refl) s1 Es). simpl. rewrite (IHf r1 eq_refl B2). reflexivity.
+        * destruct (is_listkey k) eqn:Kl.
+          -- destruct v as [a|s|l|o]; try discriminate H.
+             destruct (remap_vs rp1 l) as [l1|] eqn:El; [|discriminate H].
+             simpl in H. injection H as H. subst o'.
+             rewrite remap_file_cons. rewrite Kp, Kl.
+             assert (V : remap_v rp2 (JList l1) = Some (JList l)).
+             { apply IHv; [rewrite remap_v_list, El; reflexivity|exact B1]. }
+             rewrite remap_v_list in V. destruct (remap_vs rp2 l1) as [l2|]; [|discriminate V].
+             simpl in V. injection V as V. subst l2. simpl.
+             rewrite (IHf r1 eq_refl B2). reflexivity.
+          -- injection H as H. subst o'.
+             rewrite remap_file_cons. rewrite Kp, Kl.
+             rewrite (IHf r1 eq_refl B2). reflexivity.
+  Qed.
+End ValueRoundTrip.
+
+Theorem token_value_roundtrip old new v v' :
+  remap_token_value old new v = Some v' ->
+  (forall s, In s (fs_v v) -> forall s', remap_path old new s = Some s' -> remap_path new old s' = Some s) ->
+  remap_token_value new old v' = Some v.
+Proof. unfold remap_token_value. apply (proj1 (value_roundtrip (remap_path old new) (remap_path new old))). Qed.
+
+(* atoms and strings outside File/Directory objects are never touched *)
+Theorem non_file_unchanged rp v :
+  match v with JAtom _ | JStr _ => remap_v rp v = Some v | _ => True end.
+Proof. destruct v; simpl; trivial. Qed.
